@@ -45,6 +45,13 @@ CHECKS.update({
   text="TLC checks exhaustively (offsets 0..9/15, lengths 0..17/20, 3-symbol buffers) that the implementation-shaped byte-wise algorithm equals the pointwise bit contract; grids of real calls of every primitive in C (any, little), C++ (bitspan) and Python (Serializer/Deserializer) - offsets 0..23, lengths 0..80, sizes need-1/need/need+1/0 with guard bytes, all 65536 halves, every float32 exponent x rounding boundary + random, monotonicity - are validated by the trace spec. The 2^32 float sweep of the property text is replaced by the structured subset (stated in DESIGN §7).",
   note=TB + "gcc/g++ (+clang ASan in thorough) on little-endian x86-64; driver glue in vf/harness_prims.py."),
 })
+
+CHECKS.update({
+ "C20": dict(cat="model_checking", ref="DESIGN.md §6 C20",
+  technique="TLA+ push-down acceptor as oracle; I=>P refinement (escape + character-level lexer; namespace-tree link model) checked by TLC; TLC-enumerated payloads and shapes replayed through the real generator; per-page token traces validated by a TLA+ trace spec",
+  text="TLC checks exhaustively that the acceptor accepts exactly the well-formed token strings <=5 (thorough 6) over 14 tokens, and that the implementation-shaped render->escape->lex and namespace-tree/link models refine it for all 820 payloads of <=3 special tokens and 1536 type-graph shapes. Every enumerated payload and shape is generated by the real html target, and every page's token stream is judged by the TLA+ trace spec with link resolution over all pages of a run. Bounded-exhaustive for the design, sampled for larger universes.",
+  note=TB + "Python 3.12 html.parser is the tokenizer (optional end tags are not inferred); a directory URL means its index.html."),
+})
 NOT_YET = {}
 props = [json.loads(l) for l in open(V / "properties.jsonl")]
 checks, na = [], []
